@@ -84,7 +84,12 @@ def gen_case(rng):
             if q < 0.3:
                 return gen.absent_label(rng, lab, kind)
             return lab[rng.randrange(n)]
-        return {"block": "strict", "lab": lab, "kind": kind, "start": bound(), "stop": bound(), "step": rng.choice(STEPS)}
+        ldt = gen.label_dtype(rng, lab, kind, p=0.2)
+        if ldt in ('int8', 'int16'):
+            # spread the labels so that differences of neighbours do not fit the label dtype
+            f = 4 if ldt == 'int8' else 1000
+            lab = [v * f for v in lab]
+        return {"block": "strict", "lab": lab, "kind": kind, "ldtype": ldt, "start": bound(), "stop": bound(), "step": rng.choice(STEPS)}
     if r < 0.55:
         # monotonic axes with irregular spacing and bounds of the other numeric kind
         n = rng.randint(0, 6)
@@ -95,10 +100,10 @@ def gen_case(rng):
             j = rng.randrange(n - 1)
             lab[j + 1] = lab[j]
         pool = [None] + [v / 4.0 for v in range(-24, 128)] + list(range(-6, 32))
-        return {"block": "mono-rand", "lab": lab, "kind": kind, "start": rng.choice(pool), "stop": rng.choice(pool), "step": rng.choice(STEPS + [4, -3])}
+        return {"block": "mono-rand", "lab": lab, "kind": kind, "ldtype": gen.label_dtype(rng, lab, kind, p=0.2), "start": rng.choice(pool), "stop": rng.choice(pool), "step": rng.choice(STEPS + [4, -3])}
     if r < 0.8:
         # N-d: a slice in one or two dims, other index kinds elsewhere
-        sp = gen.spec(rng, mindim=1, maxdim=4, minsize=1, maxsize=5)
+        sp = gen.spec(rng, mindim=1, maxdim=4, minsize=1, maxsize=5, narrow=True)
         nd = len(sp["dims"])
         idx = []
         ik = []
@@ -122,7 +127,7 @@ def gen_case(rng):
                 ik.append(k)
         return {"block": "nd", "a": sp, "idx": idx, "ikinds": ik, "form": rng.choice(['full', 'short', 'ellipsis']), "ellpos": rng.randint(0, nd)}
     # position slices vs NumPy
-    sp = gen.spec(rng, mindim=1, maxdim=3, minsize=0, maxsize=5)
+    sp = gen.spec(rng, mindim=1, maxdim=3, minsize=0, maxsize=5, narrow=True)
     nd = len(sp["dims"])
     def pb(n):
         return rng.choice([None, None] + list(range(-n - 2, n + 3)))
@@ -158,7 +163,7 @@ def check(case, ctx):
     if blk in ("mono", "strict", "mono-rand"):
         lab, kind = case["lab"], case["kind"]
         n = len(lab)
-        sp = {"dims": ["t"], "labels": [lab], "kinds": [kind], "values": np.arange(n, dtype=float) * 10 + 7}
+        sp = {"dims": ["t"], "labels": [lab], "kinds": [kind], "ldtypes": [case.get("ldtype")], "values": np.arange(n, dtype=float) * 10 + 7}
         m = model.from_spec(sp)
         a = gen.build(sp)
         sl = slice(case["start"], case["stop"], case["step"])
